@@ -8,6 +8,19 @@ mod sinks;
 mod c01;
 mod c03;
 mod c19;
+mod c02;
+mod c04;
+mod c05;
+mod c07;
+mod c08;
+mod c10;
+mod c11;
+mod c12;
+mod c13;
+mod c14;
+mod c15;
+mod c16;
+mod c17;
 
 use common::*;
 
@@ -44,6 +57,19 @@ pub fn run(cmd: &str, thorough: bool) -> Option<Report> {
         "c01-reals" => c01::reals(thorough),
         "c03-strict" => c03::strict(thorough),
         "c19-sinks" => c19::sinks(thorough),
+        "c02-reader" => c02::run(thorough),
+        "c04-hostile" => c04::run(thorough),
+        "c05-encrypt" => c05::run(thorough),
+        "c07-histories" => c07::run(thorough),
+        "c08-orders" => c08::run(thorough),
+        "c10-renumber" => c10::run(thorough),
+        "c11-edits" => c11::run(thorough),
+        "c12-pages" => c12::run(thorough),
+        "c13-queries" => c13::run(thorough),
+        "c14-content" => c14::run(thorough),
+        "c15-cmap" => c15::run(thorough),
+        "c16-text" => c16::run(thorough),
+        "c17-outline" => c17::run(thorough),
         _ => return None,
     })
 }
@@ -55,6 +81,19 @@ fn replay(v: &serde_json::Value) -> i32 {
         "c01-roundtrip" | "c01-bytepairs" | "c01-reals" => c01::replay(r),
         "c03-strict" => c03::replay(r),
         "c19-sinks" => c19::replay(r),
+        "c02-reader" => c02::replay(r),
+        "c04-hostile" => c04::replay(r),
+        "c05-encrypt" => c05::replay(r),
+        "c07-histories" => c07::replay(r),
+        "c08-orders" => c08::replay(r),
+        "c10-renumber" => c10::replay(r),
+        "c11-edits" => c11::replay(r),
+        "c12-pages" => c12::replay(r),
+        "c13-queries" => c13::replay(r),
+        "c14-content" => c14::replay(r),
+        "c15-cmap" => c15::replay(r),
+        "c16-text" => c16::replay(r),
+        "c17-outline" => c17::replay(r),
         _ => { eprintln!("no replay for {}", cmd); return 2; }
     };
     match res {
